@@ -4,3 +4,5 @@ pub mod merkle;
 pub mod sponge;
 pub mod cfgpred;
 pub mod fri;
+#[cfg(feature = "full")]
+pub mod stonefile;
